@@ -43,6 +43,12 @@ pub fn vx_string_from(s: &str) -> (r: String) { s.to_string() }
 #[verifier::external_body]
 pub fn vx_lossy_string(b: &[u8]) -> (r: String) { String::new() }
 pub uninterp spec fn str_contains_spec(s: Seq<char>, p: Seq<char>) -> bool;
+pub uninterp spec fn str_ends_with_spec(s: Seq<char>, p: Seq<char>) -> bool;
+pub uninterp spec fn str_starts_with_spec(s: Seq<char>, p: Seq<char>) -> bool;
+#[verifier::external_body]
+pub fn vx_str_ends_with(s: &String, p: &str) -> (r: bool) ensures r == str_ends_with_spec(s@, p@) { s.ends_with(p) }
+#[verifier::external_body]
+pub fn vx_str_starts_with(s: &String, p: &str) -> (r: bool) ensures r == str_starts_with_spec(s@, p@) { s.starts_with(p) }
 #[verifier::external_body]
 pub fn vx_str_eq(s: &String, t: &str) -> (r: bool) ensures r == (s@ == t@) { s.as_str() == t }
 #[verifier::external_body]
